@@ -250,6 +250,11 @@ def shrink(pipe, rec, budget=30):
         for i in range(1, len(sc['argv'])):
             c = json.loads(json.dumps(sc))
             del c['argv'][i]
+            words = [U.unhx(a) for a in c['argv']]
+            # a device must stay an option argument: as an operand it would be read for ever
+            if any(w.startswith(b'/dev/') and not (i > 0 and words[i - 1].startswith(b'-') and words[i - 1].endswith(b'o'))
+                   for i, w in enumerate(words)):
+                continue
             cands.append(c)
         if sc['sched']:
             c = json.loads(json.dumps(sc)); c['sched'] = []; cands.append(c)
